@@ -6,5 +6,9 @@ m = json.load(open(p))
 head = subprocess.run(["git", "-C", "/repo", "rev-parse", "--short", "HEAD"], capture_output=True, text=True).stdout.strip()
 m.setdefault("integrator_runs", []).append({"at": f"/repo main {head}", "check": check, "result": result})
 if result.startswith("caught"):
-    m["caught_by"] = sorted(set((m.get("caught_by") if isinstance(m.get("caught_by"), list) else ([m["caught_by"]] if m.get("caught_by") else [])) + [check]))
+    cb = m.get("caught_by")
+    cb = cb if isinstance(cb, list) else ([cb] if cb else [])
+    if check not in [c for c in cb if isinstance(c, str)]:
+        cb.append(check)
+    m["caught_by"] = cb
 json.dump(m, open(p, "w"), indent=1)
